@@ -326,15 +326,25 @@ func c18(c *Ctx) {
 				c.Violate(Violation{Signature: "C18/crash", What: "the server under the race detector died", Input: wreq,
 					Observed: panicHead(rr.ch.Stderr()), Required: required + "; and no scenario crashes the server"})
 				continue
+			} else if wst == "hang" { // not judged (slowness is not a race), but never silent: bin/check prints a NOTE
+				c.Count("racew:child-hang")
+				rr.ch.Kill()
+				continue
 			}
 		}
 		if n%8 == 6 { // the sub-package filter switched off (a second server in the child), handlers reading the header
 			nreq := fmt.Sprintf("racenf %d %d %d", rng.Int63n(1<<30), 4+rng.Intn(9), ms)
-			_, nst := rr.ch.Ask(nreq, 120*time.Second)
+			nans, nst := rr.ch.Ask(nreq, 120*time.Second)
 			rr.collect(c, nreq, seenSig)
-			if nst == "ok" {
+			if nst == "ok" && !strings.Contains(nans, `"NF":"ok"`) {
+				c.Count("racenf:setup-failed") // the filter-off server did not start: the round explored nothing
+			} else if nst == "ok" {
 				tot["filter_off_rounds"]++
 				c.Eval(nreq, true)
+			} else if nst == "hang" {
+				c.Count("racenf:child-hang")
+				rr.ch.Kill()
+				continue
 			} else if nst == "crash" {
 				fatal++
 				c.Violate(Violation{Signature: "C18/crash", What: "the server under the race detector died", Input: nreq,
@@ -377,7 +387,7 @@ func c18(c *Ctx) {
 		case "hang":
 			fatal++
 			rr.ch.Kill()
-			c.Count("scen:child-hang")
+			c.Count("racescen:child-hang")
 		}
 		_ = nrep
 	}
@@ -388,6 +398,7 @@ func c18(c *Ctx) {
 	for k, v := range tot {
 		c.Extra["total_"+k] = v
 	}
+	c.Extra["wkinds_available"] = len(WKinds)
 }
 
 // collect turns the new detector reports into violations (library frames) or counts (harness-only frames).
